@@ -72,3 +72,33 @@ func (bs *BarrierSession) VerifSession() (liveCount int32, seqno uint64, closed 
 func (s *Skiplist) VerifRawStats() (levelNodes [MaxLevel + 1]int64, softDeletes, nodeAllocs, nodeFrees, usedBytes int64) {
 	return s.Stats.levelNodesCount, s.Stats.softDeletes, s.Stats.nodeAllocs, s.Stats.nodeFrees, s.Stats.usedBytes
 }
+
+// VerifPointNames names the yield points for the harness.
+var VerifPointNames = map[int]string{
+	vpAcqLoad:     "ACQ_LOAD",
+	vpAcqAdd:      "ACQ_ADD",
+	vpRelDec:      "REL_DEC",
+	vpRelClosed:   "REL_CLOSED",
+	vpRelInsert:   "REL_INSERT",
+	vpRelTryLock:  "REL_TRY_LOCK",
+	vpClRead:      "CL_READ",
+	vpClProc:      "CL_PROC",
+	vpRelUnlock:   "REL_UNLOCK",
+	vpRelRecheck:  "REL_RECHECK",
+	vpFlLock:      "FL_LOCK",
+	vpFlSwap:      "FL_SWAP",
+	vpFlTag:       "FL_TAG",
+	vpFlAdd:       "FL_ADD",
+	vpFlUnlock:    "FL_UNLOCK",
+	vpFindLevel:   "FIND_LEVEL",
+	vpFindNext:    "FIND_NEXT",
+	vpHelpDelete:  "HELP_DELETE",
+	vpInsPublish:  "INS_PUBLISH",
+	vpInsUpRead:   "INS_UP_READ",
+	vpInsUpLink:   "INS_UP_LINK",
+	vpSoftMark:    "SOFT_MARK",
+	vpDelSearch:   "DEL_SEARCH",
+	vpNewLevel:    "NEW_LEVEL",
+	vpIterNext:    "ITER_NEXT",
+	vpIterRefresh: "ITER_REFRESH",
+}
